@@ -5,6 +5,7 @@ import PyTrie.Lemmas.IterRefines
 import PyTrie.Lemmas.RawHistory
 import PyTrie.Lemmas.RawHistoryGet
 import PyTrie.Lemmas.BinRawHistory
+import PyTrie.Lemmas.BinRawAtomic
 import PyTrie.Lemmas.YellowPaper
 /-! # The raw-level write path refines the effect layer (tightens the tie for C01, C02, C04, C05, C06, C07)
 
@@ -165,5 +166,26 @@ theorem bin_history_get (H : Bytes → Bytes) (hlen : ∀ b, (H b).length = 32) 
     ∃ st, binRawRun H ops (H [], { db := [] }) = .ok (rootOf H (run ops), st) ∧
       bgetD (H []) st.db (k.length + 1) (rootOf H (run ops)) k = .ok (spec ops k) :=
   binRawRun_get H hlen ops t h k
+
+end PyTrie.Props.Raw
+
+/-! ## The binary `_set` with the state at the moment an exception leaves it (C12) -/
+namespace PyTrie.Props.Raw
+open PyTrie PyTrie.Bin
+
+/-- `Model/BinRawT.lean` (state returned in every case) agrees with `Model/BinRaw.lean` on every input -/
+theorem binT_agrees (H : Bytes → Bytes) (blank : Hash) (fuel : Nat) (st : BinRaw.St) (h : Hash) (k : Bits) (v : Bytes) (sub : Bool) :
+    BinRaw.rawSet H blank fuel st h k v sub = BinRawT.forget (BinRawT.rawSetT H blank fuel st h k v sub) :=
+  BinRawT.rawSetT_agrees H blank fuel st h k v sub
+
+/-- **a call refused with `NodeOverrideError` has saved nothing** — every input, every database -/
+theorem bin_refused_saves_nothing (H : Bytes → Bytes) (blank : Hash) (fuel : Nat) (st : BinRaw.St) (h : Hash) (k : Bits) (v : Bytes)
+    (sub : Bool) (he : (BinRawT.rawSetT H blank fuel st h k v sub).2 = .error .override) :
+    (BinRawT.rawSetT H blank fuel st h k v sub).1 = st := BinRawT.rawSetT_override_atomic H blank fuel st h k v sub he
+
+/-- the database is add-only under `_set`: the old write log is a suffix of the new one, whatever happens -/
+theorem bin_db_add_only (H : Bytes → Bytes) (blank : Hash) (fuel : Nat) (st : BinRaw.St) (h : Hash) (k : Bits) (v : Bytes) (sub : Bool) :
+    ∃ added, (BinRawT.rawSetT H blank fuel st h k v sub).1.db = added ++ st.db :=
+  BinRawT.rawSetT_db_suffix H blank fuel st h k v sub
 
 end PyTrie.Props.Raw
